@@ -234,6 +234,7 @@ type solveOpts struct {
 	workDir string
 	all     bool // run every solver (thorough): disagreement => error
 	workers int
+	deadline time.Time // overall budget of the solving phase: queries not started by then are reported as timed out
 }
 
 func (c *Ctx) discharge(opts solveOpts) {
@@ -258,6 +259,13 @@ var satisfied = map[string]bool{}
 func (c *Ctx) solveOne(i int, o *Obligation, opts solveOpts) {
 	if o.Goal == "true" && !o.ExpectSat {
 		o.Result, o.Solver = "unsat", "trivial"
+		return
+	}
+	if !opts.deadline.IsZero() && time.Now().After(opts.deadline) {
+		// the budget of the whole check is used up (on the unchanged tree the solving phase takes a few minutes): the
+		// query is reported as not discharged instead of letting a changed tree keep the check running for hours
+		o.Result, o.Solver = "timeout", "budget"
+		o.Output = "overall solver budget of the check exhausted before this query was started"
 		return
 	}
 	if o.ExpectSat {
